@@ -1492,8 +1492,6 @@ def diff_clause(name, t, got):
     cls = got.get("cls")
     if t == "uint64" and cls in ("TypeError", "IndexError", "TypingError"):
         return "uint64_promotes_to_float"
-    if name.startswith("gx_sum") or name.startswith("gx_max"):
-        return "gcxs_reduce_rows_in_operand_indptr_dtype"
     if name == "gcxs_fancy_rep" and not t.startswith("u"):
         return "gcxs_fancy_getitem_indptr_dtype"
     if name.startswith("gcxs_getitem") or (name.startswith("gcxs") and cls == "AttributeError"):
